@@ -72,7 +72,18 @@ func enumFormat(tier string, emit func(string)) {
 		emit("m|" + strconv.Itoa(args) + "|" + strconv.QuoteToASCII(ctrl))
 	}
 	each := func(ctrl string) {
+		dirs := splitDirectives(ctrl)
+		if endlessIteration(dirs) {
+			return // iterates forever BY CONTRACT (body consumes no argument): says nothing about the property
+		}
+		hasV := false
+		for _, d := range dirs {
+			hasV = hasV || strings.ContainsAny(dirParams(d), "vV")
+		}
 		for a := range fmtArgLists {
+			if hasV && a == hugeArgList {
+				continue // a huge number as a v parameter is family 2 below
+			}
 			put(ctrl, a)
 		}
 	}
@@ -80,7 +91,7 @@ func enumFormat(tier string, emit func(string)) {
 	for _, s := range singles(allBytes()) {
 		each(s)
 	}
-	// 2. the huge literal parameter on every real directive
+	// 2. a huge prefix parameter (literal, and through v) on every real directive
 	mods := []string{""}
 	if tier == engine.Thorough {
 		mods = fmtMods
@@ -88,6 +99,7 @@ func enumFormat(tier string, emit func(string)) {
 	for _, c := range directiveChars {
 		for _, m := range mods {
 			put(directive(hugeParam, m, c), 2)
+			put(directive("v", m, c), hugeArgList)
 		}
 	}
 	// 3. ordered pairs, 4. wrapped singles
@@ -113,6 +125,72 @@ func enumFormat(tier string, emit func(string)) {
 			each(w[0] + in + w[1])
 		}
 	}
+}
+
+// dirParams returns the prefix parameters + modifiers of a directive.
+func dirParams(d string) string {
+	if len(d) < 2 {
+		return ""
+	}
+	return d[1 : len(d)-1]
+}
+
+// consumes: does this directive take at least one argument whenever it runs?
+func consumes(d string) bool {
+	if len(d) < 2 {
+		return false
+	}
+	p := dirParams(d)
+	if strings.ContainsAny(p, "vV") {
+		return true
+	}
+	c := d[len(d)-1]
+	if 'a' <= c && c <= 'z' {
+		c -= 'a' - 'A'
+	}
+	switch c {
+	case 'A', 'S', 'D', 'B', 'O', 'X', 'R', 'C', 'F', 'E', 'G', '$', 'W', '?', '[':
+		return true
+	case 'P', '*':
+		return !strings.ContainsAny(p, ":@")
+	}
+	return false
+}
+
+// endlessIteration: the control string holds a ~{ or ~@{ without an iteration
+// limit whose body (up to the matching ~}) consumes no argument. Common Lisp
+// defines that to iterate until the arguments are used up, i.e. forever.
+func endlessIteration(dirs []string) bool {
+	for i, d := range dirs {
+		if d[len(d)-1] != '{' || len(d) < 2 {
+			continue
+		}
+		p := dirParams(d)
+		if strings.Contains(p, ":") || 0 < len(p) && '0' <= p[0] && p[0] <= '9' {
+			continue
+		}
+		depth, closed, eats := 0, false, false
+		for _, b := range dirs[i+1:] {
+			c := b[len(b)-1]
+			if len(b) < 2 {
+				continue
+			}
+			if c == '{' {
+				depth++
+			} else if c == '}' {
+				if depth == 0 {
+					closed = true
+					break
+				}
+				depth--
+			}
+			eats = eats || consumes(b)
+		}
+		if closed && !eats {
+			return true
+		}
+	}
+	return false
 }
 
 // splitDirectives cuts a control string into its directives (harness-side
@@ -182,7 +260,7 @@ func isolateFormat(ctrl string, args int) bool {
 		return false
 	}
 	for _, d := range splitDirectives(ctrl) {
-		huge := strings.Contains(d, hugeParam) || args == hugeArgList && strings.ContainsAny(d[:len(d)-1], "vV")
+		huge := strings.Contains(d, hugeParam) || args == hugeArgList && strings.ContainsAny(dirParams(d), "vV")
 		if huge && isolateDirective(d) {
 			return true
 		}
